@@ -186,12 +186,16 @@ def matchLineOk (fields : Pat) : Bool :=
 
 variable {V : Type}
 
-/-- `validateSummaryOptions`: quantile ranks in [0, 1], max_age not negative, and max_age / age_buckets not zero
-    (age_buckets 0 means the client library's default of 5) -/
+/-- `minSummaryStreamDuration` (one millisecond, in nanoseconds) -/
+def minStreamDuration : Int := 1000000
+
+/-- `validateSummaryOptions`: quantile ranks in [0, 1], max_age not negative, and max_age / age_buckets at least
+    `minSummaryStreamDuration` (max_age 0 means the client library's default of ten minutes, age_buckets 0 its
+    default of 5) -/
 def summaryOptsOk [NumOps V] (quantiles : List (V × V)) (maxAge : Int) (ageBuckets : Nat) : Bool :=
   quantiles.all (fun q => NumOps.ge q.1 NumOps.zero && NumOps.le q.1 NumOps.one) &&
   !(maxAge < 0) &&
-  !(maxAge != 0 && maxAge / ((if ageBuckets == 0 then 5 else ageBuckets : Nat) : Int) == 0)
+  !((if maxAge == 0 then 600000000000 else maxAge) / ((if ageBuckets == 0 then 5 else ageBuckets : Nat) : Int) < minStreamDuration)
 
 def countStars (p : Pat) : Nat := (p.filter (· == starB)).length
 
